@@ -55,24 +55,24 @@ def directed(rng, tier, tag):
         out.append(mk("%sd%d" % (tag, len(out)), cont, list(pre) + tail(rng.choice([0, 6, 14]), w)))
     rels = [0, 1, 2]
     # (b) a release overlapping a request in flight: holder H = thread 0, requester W = thread 1.
-    #     H: step, try(ok) | cs, unlock, (bq)      W: step, try(fails), publish, m_pub tail
+    #     H: step, cas(ok) | cs, load, cas, (xchg)      W: step, cas(fails) | cas(null, fails), cas(publishes), m_pub tail
     for kh in (0, 1):
         for kw in (0, 1):
             for rh in rels:
-                for m in merges([0, 0, 0], [1, 1, 1]):
+                for m in merges([0, 0, 0, 0], [1, 1, 1]):
                     cont = [(kh, [(0, rh), (0, rng.choice(rels))]), (kw, [(0, rng.choice(rels))])]
                     add(cont, [0, 0, 1, 1] + m, 1)
     # (c) try_lock racing unlock: T = thread 1 tries twice while H = thread 0 leaves the critical section
     for kh in (0, 1):
         for kt in (0, 1):
             for rh in rels:
-                for m in merges([0, 0], [1, 1, 1, 1]):
+                for m in merges([0, 0, 0], [1, 1, 1, 1]):
                     cont = [(kh, [(0, rh), (1, rng.choice(rels))]), (kt, [(1, rng.choice(rels)), (1, rng.choice(rels)), (0, 0)])]
                     add(cont, [0, 0, 1] + m, 1)
     # (a) two late arrivals between an owner's publishing CAS and its build_queue: threads X=0, H=1, A=2, B=3.
     #     H takes the mutex, X fails its try, H releases (mutex free), X publishes on null (now at m_pub),
     #     A and B fail their try and publish on top of X's request, then X runs m_pub and build_queue(X).
-    arr = [[2, 2, 2, 3, 3, 3], [3, 3, 3, 2, 2, 2], [2, 3, 2, 3, 2, 3], [2, 2, 3, 3, 3, 2], [3, 2, 2, 3, 3, 2]]
+    arr = [[2, 2, 2, 2, 3, 3, 3, 3], [3, 3, 3, 3, 2, 2, 2, 2], [2, 3, 2, 3, 2, 3, 2, 3], [2, 2, 3, 3, 3, 3, 2, 2], [3, 2, 2, 3, 3, 2, 2, 3]]
     combos = [(kx, kh, ka, kb) for kx in (0, 1) for kh in (0, 1) for ka in (0, 1) for kb in (0, 1)]
     for (kx, kh, ka, kb) in combos:
         for rh in rels:
@@ -80,15 +80,32 @@ def directed(rng, tier, tag):
                 if tier == "quick" and rng.random() < 0.6: continue
                 cont = [(kx, [(0, rng.choice(rels)), (0, rng.choice(rels))]), (kh, [(0, rh), (rng.choice([0, 1]), rng.choice(rels))]),
                         (ka, [(0, rng.choice(rels))]), (kb, [(0, rng.choice(rels))])]
-                cut = rng.choice([0, 3, 6])       # X's m_pub step before / between / after the arrivals
-                pre = [1, 1, 0, 0, 1, 1, 0] + a[:cut] + [0] + a[cut:] + [0]
+                cut = rng.choice([0, 4, 8])       # X's m_pub step before / between / after the arrivals
+                pre = [1, 1, 0, 0, 1, 1, 1, 0] + a[:cut] + [0] + a[cut:] + [0]
                 add(cont, pre, 3)
     # (a') 4 parties on 3 threads: coroutine 0 releases to coroutine 1 which then runs on thread 0 while thread 1 is
     #      still in the tail of await_suspend; plain thread 2 and coroutine 3-less variant arrive late
     for rh in rels:
-        for m in merges([0, 0, 0, 0], [2, 2, 2]):
+        for m in merges([0, 0, 0, 0, 0], [2, 2, 2, 2]):
             cont = [(0, [(0, rh), (0, rng.choice(rels))]), (0, [(0, rng.choice(rels)), (0, rng.choice(rels))]), (1, [(0, rng.choice(rels)), (1, 0)])]
-            add(cont, [0, 0, 1, 1, 1] + m, 2)
+            add(cont, [0, 0, 1, 1, 1, 1] + m, 2)
+    # (f) retry windows: between two adjacent atomic operations of requester A (thread 1: its try failed while H held the
+    #     mutex, then H released) other contenders complete whole operations: N (thread 2) locks, Y (thread 3) requests ...
+    #     4 parties; every atomic operation on _requests is a scheduling point, marked by the library or not.
+    nf = 160 if tier == "quick" else 2500
+    for i in range(nf):
+        kinds = [rng.choice([0, 0, 1]) for _ in range(4)]
+        cont = [(kinds[0], [(0, rng.choice(rels)), (rng.choice([0, 1]), rng.choice(rels))]),
+                (kinds[1], [(0, rng.choice(rels)), (0, rng.choice(rels))]),
+                (kinds[2], [(rng.choice([0, 0, 1]), rng.choice(rels)), (0, rng.choice(rels))]),
+                (kinds[3], [(0, rng.choice(rels))])]
+        pre = [0, 0, 1, 1, 0, 0, 0]
+        for _ in range(rng.choice([2, 3, 4])):
+            pre += [1]
+            chunks = [[2] * rng.choice([0, 2, 2, 3]), [3] * rng.choice([0, 3, 4, 4, 5]), [0] * rng.choice([0, 0, 1, 2])]
+            rng.shuffle(chunks)
+            for ch in chunks: pre += ch
+        add(cont, pre, 3)
     # (d) the same schedule under every release flavour / (e) every mix of blocking and coroutine contenders
     base = [rng.randint(0, 3) for _ in range(40)]
     for kinds in [(0, 0, 0), (0, 1, 0), (1, 0, 1), (1, 1, 0), (1, 1, 1), (0, 0, 1)]:
